@@ -2,8 +2,10 @@
 import json, string
 import vlib, gen, impl, findings
 
-MODULES = ['Hl7.Props.C15']
-THEOREMS = ['Hl7.Msg.splitMsh_errors', 'Hl7.Msg.C15_getMessageType', 'Hl7.Msg.C15_getMessageInfo', 'Hl7.Msg.C15_parse_header_errors']
+from props.c01 import VERSIONS as _VS
+MODULES = ['Hl7.Props.C15', 'Hl7.Props.C15Seg'] + ['Hl7.Gen.ObV' + v.replace('.', '_') for v in _VS]
+THEOREMS = ['Hl7.Msg.splitMsh_errors', 'Hl7.Msg.C15_getMessageType', 'Hl7.Msg.C15_getMessageInfo', 'Hl7.Msg.C15_parse_header_errors',
+            'Hl7.Pe.C15_segmentNew_wf', 'Hl7.Pe.C15_segmentNew_guarded', 'Hl7.Pe.go_ok'] + ['Hl7.Gen.ObV%s.segmentNew_nocrash' % v.replace('.', '_') for v in _VS]
 
 BASE = [
     'MSH|^~\\&|SND|FAC|RCV|RFAC|20200101||ADT^A01^ADT_A01|1|P|2.5\rEVN||20200101\rPID|1||123^^^H^MR||DOE^JOHN||19800101|M\rPV1|1|I',
